@@ -155,3 +155,45 @@ pub fn follower_read(s: &mut Src, sh: &Shape) {
     vcover!(c1 > g.committed, "commit advanced by read response");
     forget(r);
 }
+
+/// Duplicate read contexts: A, B, A again while A is pending (the duplicate must be ignored),
+/// both served by one quorum round on B, then a fresh read C is served too (no leftover entry
+/// in the queue without a pending record - that would trip an internal check).
+pub fn read_dups(s: &mut Src, sh: &Shape) {
+    let (mut r, g) = mk_raft(s, sh);
+    let term0 = r.term;
+    let commit0 = g.committed;
+    // (three explicit calls: `for x in [..]` moves the values through array::IntoIter's MaybeUninit)
+    let res = r.step(read_msg(3, 7));
+    assert!(res.is_ok());
+    r.msgs.clear();
+    let res = r.step(read_msg(3, 8));
+    assert!(res.is_ok());
+    r.msgs.clear();
+    let res = r.step(read_msg(3, 7));
+    assert!(res.is_ok());
+    assert!(r.pending_read_count() == 2, "a duplicate context must not be queued twice");
+    r.msgs.clear();
+    let res = r.step(hb_resp(2, term0, Some(8)));
+    assert!(res.is_ok());
+    assert!(r.pending_read_count() == 0, "a quorum on the later request releases the earlier one too");
+    let mut resp = 0;
+    let mut k = 0;
+    while k < r.msgs.len() {
+        if r.msgs[k].get_msg_type() == MessageType::MsgReadIndexResp {
+            resp += 1;
+            assert!(r.msgs[k].to == 3 && r.msgs[k].index == commit0);
+        }
+        k += 1;
+    }
+    assert!(resp == 2, "exactly the two distinct requests are answered");
+    r.msgs.clear();
+    let res = r.step(read_msg(0, 9));
+    assert!(res.is_ok());
+    r.msgs.clear();
+    let res = r.step(hb_resp(2, term0, Some(9)));
+    assert!(res.is_ok());
+    assert!(r.read_states.len() == 1 && r.read_states[0].index == commit0 && r.pending_read_count() == 0);
+    crate::macros::reached_end();
+    forget(r);
+}
